@@ -1089,7 +1089,12 @@ def c10_e2e_cfg(seed, jitter=False, skip=False):
     src = [n for n in cfg["nodes"] if n["name"] == c["out"]][0]
     if not jitter:
         src["cdist"] = [rng.choice(src["cdist"])]
-    mn, mx = rng.choice([(0, 2), (1, 3), (0, 4), (2, 6), (1, 5)])   # max - min a power of two: alpha is exact in float32
+    ranges = [(0, 2), (1, 3), (0, 4), (2, 6), (1, 5)]   # max - min a power of two: alpha is exact in float32
+    P = src["period"]
+    # half of the time a range whose bounds are not aligned with the sender's period (frac(max/P) > frac(min/P) > 0): there
+    # ceil(rate*(max-min)) differs from ceil(rate*max) - ceil(rate*min) (seeded changes C10-a / C07-c)
+    mis = [(a, b) for a, b in ranges if (b % P) > (a % P) > 0]
+    mn, mx = rng.choice(mis) if mis and rng.random() < 0.5 else rng.choice(ranges)
     c["train"] = dict(min=mn, max=mx)
     c["skip"] = skip
     c["blocking"] = False
@@ -1114,6 +1119,9 @@ def _c10_e2e(rep, quick, seed):
             continue
         tr = [c for c in cfg["conns"] if "train" in c][0]["train"]
         vars_ = [dict(d=d, how=["dist", "init_delays", "params"][(d + s) % 3], jit=((d + s) % 4 != 0)) for d in range(0, tr["max"] + 2)]
+        for v in vars_:
+            if v["how"] != "dist" and (v["d"] + s) % 2 == 0:
+                v["d0"] = tr["max"]   # connection created with the maximal delay, the delay in force set (lower) at init
         mode, prune = modes[s % 6]
         jobs.append(dict(kind="pyfunc", module="harness.compiled_jobs", func="c10_e2e_job", id=f"c10e{s}", cfg=cfg, seed=seed + s, variants=vars_, mode=mode,
                          prune=prune, ts_max=48 if quick else 64, timeout=2400))
